@@ -987,6 +987,56 @@ fn main() {
         s.sample(json!({"call": "lerp_unclamped(200u8, 100u8, 0.3f32)", "exact": "200 - 100*0.300000011920929 = 169.9999988...", "want": 170}));
     });
 
+    rep.section("narrow and wide integers with f64 / f32 factors next to rounding ties",
+        "endpoints (from, to) from a small set per type (u8, i8, u16, i16, i32, i64) x every tie position k + 1/2 between them (at most 6 per pair) x factor = the float nearest to (k + 1/2 +- d)/(to - from) for d in {1e-9, 1e-6} (f64 factors) and {1e-3} (f32 factors): these factors are NOT representable in f32 / are far from dyadic grids; the exact value from + f*(to - from) is computed from the factor's exact rational value and rounded half away from zero; asserted when its distance to the tie exceeds 1e-12 (f64) / 1e-4 (f32) relative to |to - from| + |from| (so the float evaluation cannot legitimately cross the tie); forms: lerp_unclamped, lerp_unclamped_precise, lerp, lerp_precise; non-trivial: all", true, false, |s| {
+        s.require_classes(&["f64 factor, 8/16-bit endpoints", "f64 factor, wide endpoints", "f32 factor"]);
+        macro_rules! ties { ($T:ty, $name:literal, $pairs:expr, $cls:literal) => {{
+            let pairs: Vec<($T, $T)> = $pairs;
+            for &(from, to) in &pairs {
+                let span = to as i128 - from as i128;
+                if span == 0 { continue; }
+                let steps: Vec<i128> = { let n = span.abs(); let mut v: Vec<i128> = vec![0, 1, n / 2, n - 2, n - 1]; v.retain(|&k| k >= 0 && k < n); v.sort(); v.dedup(); v };
+                for &k in &steps { for sign in [-1.0f64, 1.0] {
+                    // f64 factors
+                    for d in [1e-9f64, 1e-6] {
+                        let f = ((k as f64 + 0.5 + sign * d) / span.abs() as f64).clamp(0.0, 1.0);
+                        let fq = vx::fl::qf(f);
+                        let exact = Q::new(from as i128, 1).add(fq.mul(Q::new(span, 1)));
+                        let want = exact.round();   // half away from zero
+                        let dist = exact.sub(exact.floor()).sub(Q::new(1, 2)).abs().to_f64();
+                        if dist <= 1e-12 * (span.abs() as f64 + (from as f64).abs()) { continue; }
+                        s.eval(true); s.class($cls);
+                        for (form, got) in [("lerp_unclamped", catch(|| <$T as Lerp<f64>>::lerp_unclamped(from, to, f))), ("lerp_unclamped_precise", catch(|| <$T as Lerp<f64>>::lerp_unclamped_precise(from, to, f))),
+                                            ("lerp", catch(|| <$T as Lerp<f64>>::lerp(from, to, f))), ("lerp_precise", catch(|| <$T as Lerp<f64>>::lerp_precise(from, to, f)))] {
+                            match got { Ok(g) => if Q::new(g as i128, 1) != want { s.violation_w(&format!("Lerp<f64>::{} for {}", form, $name), "not-the-exact-value-rounded-to-nearest(near a tie)", json!({"from": from as i64, "to": to as i64, "factor": f, "got": g as i64, "want": want.to_f64(), "exact": exact.to_f64()}), k as u64); },
+                                        Err(e) => s.violation_w(&format!("Lerp<f64>::{} for {}", form, $name), "panic", json!({"from": from as i64, "to": to as i64, "factor": f, "error": format!("{:?}", e)}), k as u64) }
+                        }
+                    }
+                    // f32 factors (only where the type's values are exact in f32)
+                    if (from as i128).abs() <= 1 << 20 && (to as i128).abs() <= 1 << 20 {
+                        let f = (((k as f64 + 0.5 + sign * 1e-3) / span.abs() as f64).clamp(0.0, 1.0)) as f32;
+                        let fq = vx::fl::qf(f as f64);
+                        let exact = Q::new(from as i128, 1).add(fq.mul(Q::new(span, 1)));
+                        let want = exact.round();
+                        let dist = exact.sub(exact.floor()).sub(Q::new(1, 2)).abs().to_f64();
+                        if dist <= 1e-4 * (span.abs() as f64 + (from as f64).abs()) { continue; }
+                        s.eval(true); s.class("f32 factor");
+                        for (form, got) in [("lerp_unclamped", catch(|| <$T as Lerp<f32>>::lerp_unclamped(from, to, f))), ("lerp_unclamped_precise", catch(|| <$T as Lerp<f32>>::lerp_unclamped_precise(from, to, f)))] {
+                            match got { Ok(g) => if Q::new(g as i128, 1) != want { s.violation_w(&format!("Lerp<f32>::{} for {}", form, $name), "not-the-exact-value-rounded-to-nearest(near a tie)", json!({"from": from as i64, "to": to as i64, "factor": f, "got": g as i64, "want": want.to_f64(), "exact": exact.to_f64()}), k as u64); },
+                                        Err(e) => s.violation_w(&format!("Lerp<f32>::{} for {}", form, $name), "panic", json!({"from": from as i64, "to": to as i64, "factor": f, "error": format!("{:?}", e)}), k as u64) }
+                        }
+                    }
+                } }
+            }
+        }} }
+        ties!(u8, "u8", vec![(0, 1), (0, 255), (255, 0), (3, 200), (200, 100)], "f64 factor, 8/16-bit endpoints");
+        ties!(i8, "i8", vec![(0, 1), (-128, 127), (127, -128), (-5, 90), (10, -10)], "f64 factor, 8/16-bit endpoints");
+        ties!(u16, "u16", vec![(0, 1), (0, 65535), (65535, 0), (1000, 1007)], "f64 factor, 8/16-bit endpoints");
+        ties!(i16, "i16", vec![(0, 1), (-32768, 32767), (300, -300), (-7, 0)], "f64 factor, 8/16-bit endpoints");
+        ties!(i32, "i32", vec![(0, 1), (-1000, 1000), (100000, 100009), (1 << 20, 0)], "f64 factor, wide endpoints");
+        ties!(i64, "i64", vec![(0, 1), (-1000, 1000), (1 << 20, -(1 << 20))], "f64 factor, wide endpoints");
+    });
+
     rep.section("quaternion slerp, exact, general endpoints (from = q0 r^k1, to = +-q0 r^(k1+4))",
         "q0 in 5 rational unit quaternions (no zero component but one), r^k = (axis sin(k phi), cos(k phi)) for 5 rational unit axes and rational angle bases phi (3 quick, 6 thorough), k1 in {0,1}, both signs of `to`, factors j/4, j=-2..6: slerp_unclamped(from, to, j/4) = q0 r^(k1+j) exactly (Hamilton product computed here on arrays): neither endpoint is the identity, endpoints do not commute with the axis; inherent, Slerp value/reference, clamped forms; non-trivial: j not in {0,4}", true, false, |s| {
         s.require_classes(&["sign-flip-branch", "direct-branch"]);
